@@ -1,6 +1,6 @@
 (* C09 — @position ranges are exactly the byte span the rule consumed. *)
 From PegV Require Import Utf8 Utf8Facts State Terminals TerminalsSpec TerminalsOk Syntax Fields
-  FieldsFacts GetFieldsFacts Literals LiteralsFacts Model Spec SpecPos ShapeFacts ErrLog Sim Conform ConformX Extracted.
+  FieldsFacts GetFieldsFacts Literals LiteralsFacts Model Spec SpecPos ShapeFacts ErrLog Sim Conform ConformX MemoEq MemoSpec Extracted.
 
 Theorem C09_facts :
   Extracted.file_codegen_src_rule_rs = true /\ Extracted.file_runtime_src_state_rs = true /\
@@ -58,3 +58,24 @@ Theorem C09_string_slice : forall fcfg g r consumed span evs,
   shape fcfg g r consumed span evs = Some (VStruct (r_name r) [(n_string, VStr (encode_str consumed))] (Some span)).
 Proof. intros fcfg g r consumed span evs H1 H2. unfold shape. rewrite H1, H2. reflexivity. Qed.
 Print Assumptions C09_string_slice.
+
+(* grammars with @memoize rules (any subset, no @leftrec rule): the positions in the tree the
+   memoized parser returns are those of the specification *)
+Theorem C09_span_memoized :
+  forall (ustate : Type) (hk : hooks ustate) (shk : shooks) (g : grammar),
+    pure_hooks ustate hk shk ->
+    (forall r, In (GRule r) g -> fl_left_recursive (flags_of (r_directives r)) = false) ->
+    forall n m rule_name cs u v st', all_scalar cs ->
+      fst (m_parse ustate Extracted.scfg Extracted.tcfg Extracted.fcfg Extracted.rcfg hk g
+                   n rule_name (encode_str cs) u) = MOk v st' ->
+      s_parse Extracted.fcfg shk g true m rule_name cs = SFuel \/
+      (exists p, fst (m_parse ustate Extracted.scfg Extracted.tcfg Extracted.fcfg Extracted.rcfg hk (strip g)
+                              m rule_name (encode_str cs) u) = MPanic p) \/
+      exists cs' l, s_parse Extracted.fcfg shk g true m rule_name cs = SOk v cs' (off st') l.
+Proof.
+  intros ustate hk shk g Hp NoLR n m rule_name cs u v st' Hs E.
+  pose proof (memoized_vs_spec ustate Extracted.scfg Extracted.fcfg Extracted.rcfg hk shk g
+                eq_refl eq_refl eq_refl Hp NoLR n m rule_name cs u Hs) as C.
+  change term_cfg_expected with Extracted.tcfg in C. rewrite E in C. exact C.
+Qed.
+Print Assumptions C09_span_memoized.
